@@ -14,6 +14,9 @@ CHECKS = {
  "C05": dict(cat="model_checking", design="DESIGN.md section 5 C05",
    technique="TLA+ spec Ext.tla (component-list fold as actions) model-checked exhaustively with TLC; every TLC-generated layout replayed through the real compiler; recorded trace validated by TLC against the spec",
    text="TLC enumerates every component-list layout within the bound (thorough: <=4 root components, marker at every position, <=6 components after the marker as loose additions and <=3 version groups in every interleaving, x SEQUENCE/SET/CHOICE/ENUMERATED x nested x EXTENSIBILITY IMPLIED: 95 160 layouts; quick: 3/4/2), checks the fold invariants (additions = members after the marker, groups partition their members, index = #root), and validates for every layout the compiler's observed members, roles, group contents, optionality, non_exhaustive marking and IR extension index against the spec."),
+ "C03": dict(cat="model_checking", design="DESIGN.md section 5 C03",
+   technique="TLA+ spec Tagging.tla (X.680 31.2.7 a-c as separate invariants) model-checked exhaustively with TLC; all 960 legal tag points + 96 automatic-tagging points replayed through the real compiler; recorded trace validated by TLC against the spec, known deviations as named TLA+ operators",
+   text="TLC enumerates the complete product the property names (module default x keyword x class x position x tagged kind: 1200 points, 960 legal, plus 96 automatic-tagging points), checks the three clauses of 31.2.7 and their converse on the model, refutes each deviation model, and validates for every point the tag annotation the compiler emitted (presence, class, number, explicit/implicit marking, automatic_tags). Observation is at attribute level; the encodings rasn 0.27 produces for each marking on CHOICE / open types were measured with a probe and are built into the acceptance predicate."),
 }
 
 NOT_BUILT = "check not built yet (DESIGN.md section 13 build order)"
